@@ -422,6 +422,15 @@ class Sym:
             return [head, wrap(rest)]
         return ManyParts(self, sep)
 
+    def partition(self, sep):
+        """str.partition(sep): forks on whether the separator occurs"""
+        es = to_z3(sep)
+        p = cur()
+        if not p.branch(z3.Contains(self.e, es)):
+            return (self, "", "")
+        i = z3.IndexOf(self.e, es, 0)
+        return (wrap(z3.SubString(self.e, 0, i)), sep, wrap(z3.SubString(self.e, i + z3.Length(es), z3.Length(self.e))))
+
     def strip(self, chars=None):
         raise Unsupported("str.strip on a symbolic string")
 
@@ -584,3 +593,9 @@ class ManyParts:
 
     def __len__(self):
         raise Unsupported("len of ManyParts")
+
+    def sym_len(self):
+        """the number of parts: only `>= 3` is known"""
+        n = z3.Int(fresh_name("nparts"))
+        cur().assume(n >= 3)
+        return wrap_num(n)
